@@ -1693,9 +1693,27 @@ func ruleWritersRefuseNothing(c *Check, p *Prog, rule string) {
 			c.Unk(rule, m+" ⟂ refuses nothing", "", "", "anchor lost: store method "+m)
 			continue
 		}
+		n++
+		refusing := refusesOnOwnCondition(c, p, fn)
+		inst := m + " ⟂ refuses nothing"
+		if refusing == nil {
+			c.OK(rule, inst, fnName(fn), p.Pos(fn.Pos()), "every error return follows the failure of a call underneath", true)
+		} else {
+			c.Bad(rule, inst, fnName(fn), p.InstrPos(refusing.In), "the method can return an error without any operation underneath having failed: it refuses the write on a condition of its own (e.g. what is already stored at that key). The restart path re-saves the genesis placeholder and the pending block: after a crash at the wrong moment such a refusal repeats on every start", nil)
+		}
+	}
+	if n < 4 {
+		c.Unk(rule, "anchor-count", "", "", fmt.Sprintf("anchor lost: %d of the 4 store writers found", n))
+	}
+}
+
+// refusesOnOwnCondition: an error return of fn that is reachable without any call underneath
+// having failed (nil if there is none). A returned error that is a callee's own result counts as
+// that callee's failure.
+func refusesOnOwnCondition(c *Check, p *Prog, fn *ssa.Function) *Node {
+	{
 		g := BuildECFG(p, fn, ExpandOpts{MaxDepth: 0})
 		c.NoteGraph(g)
-		n++
 		failed := g.Select(EdgeWhere(func(t *Term, pol bool, nd *Node) bool {
 			t, pol = normFact(t, pol)
 			if t.Op != "bin" || len(t.Args) != 2 || t.Args[1].Name != "nil" || (t.Name != "!=" && t.Name != "==") {
@@ -1706,7 +1724,7 @@ func ruleWritersRefuseNothing(c *Check, p *Prog, rule string) {
 			if a.Op == "extract" && len(a.Args) > 0 {
 				a = a.Args[0]
 			}
-			return notNil && (a.Op == "call" || a.Op == "invoke")
+			return notNil && (a.Op == "call" || a.Op == "invoke" || a.Op == "dyncall")
 		}))
 		var refusing *Node
 		for _, x := range g.Exits {
@@ -1724,15 +1742,7 @@ func ruleWritersRefuseNothing(c *Check, p *Prog, rule string) {
 				refusing = x
 			}
 		}
-		inst := m + " ⟂ refuses nothing"
-		if refusing == nil {
-			c.OK(rule, inst, fnName(fn), p.Pos(fn.Pos()), "every error return follows the failure of a call underneath", true)
-		} else {
-			c.Bad(rule, inst, fnName(fn), p.InstrPos(refusing.In), "the method can return an error without any operation underneath having failed: it refuses the write on a condition of its own (e.g. what is already stored at that key). The restart path re-saves the genesis placeholder and the pending block: after a crash at the wrong moment such a refusal repeats on every start", nil)
-		}
-	}
-	if n < 4 {
-		c.Unk(rule, "anchor-count", "", "", fmt.Sprintf("anchor lost: %d of the 4 store writers found", n))
+		return refusing
 	}
 }
 
